@@ -54,6 +54,16 @@ def main():
             want = SPEC.ngrams(d, rng[0], rng[1])
             if got != want and len(bad) < 5:
                 bad.append({"ngram_range": rng, "document": d, "real": got, "spec": want})
+    # a pipeline fitted a second time on another corpus behaves like a fresh one fitted on that corpus
+    Xa, ya = [["a", "b"], ["b", "c"]], [True, False]
+    Xb, yb = [["c", "d", "c"], ["a", "d"], ["e"]], [False, True, True]
+    refit = train_naive_bayes(Xa, ya).fit(Xb, [1 if t else -1 for t in yb])
+    fresh = train_naive_bayes(Xb, yb)
+    for q in queries + [["c", "d"], ["e", "a", "d"]]:
+        cases += 1
+        if list(refit.predict_log_proba([q])[0]) != list(fresh.predict_log_proba([q])[0]) and len(bad) < 5:
+            bad.append({"what": "a pipeline fitted again on another corpus differs from a fresh one fitted on that corpus", "first_corpus": Xa,
+                        "second_corpus": Xb, "query": q, "refitted": list(refit.predict_log_proba([q])[0]), "fresh": list(fresh.predict_log_proba([q])[0])})
     # persistence: saving and re-loading changes no score
     X, y = [["a", "b"], ["b", "c", "a"], ["c"]], [True, False, True]
     mdl = train_naive_bayes(X, y)
